@@ -550,13 +550,12 @@ fn run_case_inner(rng: &mut Rng, sc: &Scenario, cfg: &RunCfg, model: &mut Model,
             }
             _ => {}
         }
-        // (C04) region / frame of every device write.  C04 is about what a call writes relative to the medium; after a
-        // FAILED WRITE the one-block cache still holds the block as the failed call wanted it (the crate does not
-        // invalidate it), so a later read-modify-write of that block legitimately carries those bytes along: the
-        // byte-frame part of the oracle is meaningful only as long as no device write has failed in this run.
-        let frame_ok = sess.disk.write_fault_hits() == 0;
-        if !frame_ok && pre_image.is_some() {
-            rep.count("frame-oracle:suspended-after-failed-write");
+        // (C04) region / frame of every device write.  (Before fix: blockdevice.rs kept a block tagged after a failed
+        // write-back, and later read-modify-writes carried the failed call's bytes to the medium; the frame oracle had
+        // to be suspended after a failed write.  Since the cache forgets the block, the frame holds under faults too.)
+        let frame_ok = true;
+        if sess.disk.write_fault_hits() > 0 && pre_image.is_some() {
+            rep.count("frame-oracle:armed-after-failed-write");
         }
         if let (Some(pre), true) = (&pre_image, frame_ok) {
             let mut cur = pre.clone();
